@@ -33,6 +33,17 @@ package sqlc_model
 //@ ghost var dbFreshLimit int64
 //@ ghost var dbFreshArr mathint
 //@ ghost var dbFreshLen mathint
+// dbLastSQL: text of the statement handed to the database connection last.
+//@ ghost var dbLastSQL string
+//@ pure lastSQL() string = dbLastSQL
+//@ func (DBTX).ExecContext
+//@   trusted
+//@   modifies dbLastSQL
+//@   ensures dbLastSQL == arg1
+//@ func (DBTX).QueryContext
+//@   trusted
+//@   modifies dbLastSQL
+//@   ensures dbLastSQL == arg1
 //@ pure nAdds() int = dbAddN
 //@ pure nDeletes() int = dbDelN
 //@ pure nClaims() int = dbClaimN
@@ -53,25 +64,41 @@ package sqlc_model
 
 //@ func (*Queries).DeleteURL
 //@   opaque
-//@   modifies dbDelN, dbDelID
+//@   property C04
+//@   sweep idx
+//@   attr proved sql
+//@   ensures [sql] lastSQL() == "-- name: DeleteURL :exec\nDELETE FROM urls\nWHERE id = ?\n" // proved: the method issues exactly this statement (its meaning is what the other clauses assume)
+//@   modifies dbDelN, dbDelID, dbLastSQL
 //@   ensures dbDelN == old(dbDelN) + 1 && dbDelID == id
 
 //@ func (*Queries).ClaimThisURL
 //@   opaque
-//@   modifies dbClaimN, dbClaimID, mapof(dbHandedOut)
+//@   property C04
+//@   sweep idx
+//@   attr proved sql
+//@   ensures [sql] lastSQL() == "-- name: ClaimThisURL :exec\nUPDATE urls\nSET status = 'CLAIMED', timestamp = strftime('%s', 'now')\nWHERE id = ?\n" // proved: the method issues exactly this statement (its meaning is what the other clauses assume)
+//@   modifies dbClaimN, dbClaimID, mapof(dbHandedOut), dbLastSQL
 //@   ensures dbClaimN == old(dbClaimN) + 1 && dbClaimID == id
 //@   ensures result == nil ==> has(dbHandedOut, id)
 //@   ensures forall(k, string, k != id ==> has(dbHandedOut, k) == old(has(dbHandedOut, k)))
 
 //@ func (*Queries).ResetURL
 //@   opaque
-//@   modifies mapof(dbHandedOut)
+//@   property C04
+//@   sweep idx
+//@   attr proved sql
+//@   ensures [sql] lastSQL() == "-- name: ResetURL :exec\nUPDATE urls\nSET status = 'FRESH', timestamp = strftime('%s', 'now')\nWHERE id = ?\n" // proved: the method issues exactly this statement (its meaning is what the other clauses assume)
+//@   modifies mapof(dbHandedOut), dbLastSQL
 //@   ensures result == nil ==> !has(dbHandedOut, id)
 //@   ensures forall(k, string, k != id ==> has(dbHandedOut, k) == old(has(dbHandedOut, k)))
 
 //@ func (*Queries).GetFreshURLs
 //@   opaque
-//@   modifies dbFreshLimit, dbFreshArr, dbFreshLen
+//@   property C04
+//@   sweep idx
+//@   attr proved sql
+//@   ensures [sql] lastSQL() == "-- name: GetFreshURLs :many\nSELECT id, value, via, hops, status, timestamp FROM urls\nWHERE status = 'FRESH'\nLIMIT ?\n" // proved: the method issues exactly this statement (its meaning is what the other clauses assume)
+//@   modifies dbFreshLimit, dbFreshArr, dbFreshLen, dbLastSQL
 //@   ensures dbFreshLimit == limit && dbFreshArr == arrof(result0) && dbFreshLen == len(result0)
 //@   ensures result1 != nil ==> len(result0) == 0
 
